@@ -254,3 +254,39 @@ def run(ctx: Ctx):
                               tags=dict(first="state-differs"))
                 break
             prev = gg
+
+    # ---- identifiers across a warm start: the continuation never hands out a pid the first leg has used
+    from harness.props import c08
+    from harness.common import pmap
+    wcases = c08.corpus_recorded_then_dead() + [c08.make_base(ctx.seed * 100000 + 5500 + k) for k in range(24 if ctx.thorough else 6)]
+    for sc, g in zip(wcases, pmap(c08.run_base_and_restarts, wcases)):
+        if g["status"] != "ok":
+            continue
+        npid_at = {e["step"]: e["npid"] for e in g["ibm"]["log"]}
+        for rs in g["restarts"]:
+            fk = g["files"][rs["k"]]
+            at, _ = c08.abs_times(fk)
+            rstep = int(round((at[-1] - sc["start"]) / c08.scen.DT))
+            used = set(p for f in g["files"][: rs["k"] + 1] for p in f["pid"])      # every pid the files up to the restart show
+            pos = len(fk["pid"]) - fk["count"][-1] if fk["count"] else 0
+            survivors = set(fk["pid"][pos:])
+            case = dict(scenario=c08.scen.brief(sc), restart_from=fk["name"], at_step=rstep)
+            ctx.case("warm-pids", [sc["seed"], rs["k"]], sample=case, nontrivial=True)
+            if rs["status"] != "ok":
+                continue
+            unrecorded = npid_at.get(rstep, 0) > max(fk["pid"] + [-1]) + 1
+            bad = []
+            for f in rs["files"]:
+                if "unreadable" in f:
+                    continue
+                p_ = 0
+                for n, c in enumerate(f["count"]):
+                    pids = f["pid"][p_:p_ + c]; p_ += c
+                    if any(b <= a for a, b in zip(pids, pids[1:])) or any(q < k_ for k_, q in enumerate(pids)):
+                        bad.append(f"{f['name']} record {n}: pids {pids} not strictly increasing with pid[k] >= k")
+                    reused = [q for q in pids if q in used and q not in survivors]
+                    if reused:
+                        bad.append(f"{f['name']} record {n}: pids {reused} belonged to particles that were dead at the restart and are handed out again")
+            if bad:
+                ctx.violation("failing-input", "warm-pids", case, dict(broken=bad[:3], theorem="Ladim.C05.pid_never_reused / Ladim.C08.npid_from_record"),
+                              tags=dict(first="pid-reuse", unrecorded_highest_pid=bool(unrecorded), particle_variables=bool(sc["pvars"])))
